@@ -121,8 +121,11 @@ Section Pipe.
   Record pst := mkPst {
     ps_sess : list sst;
     ps_loc : LocRIBClients.state AdjRIBOut.path;
-    ps_panic : bool                    (* a Loc-RIB operation panicked (r.Paths()[:n], n > len) *)
+    ps_panic : bool;                   (* a Loc-RIB operation panicked (r.Paths()[:n], n > len) *)
+    ps_seen : list (list AdjRIBOut.path) (* ghost: the path list of the touched prefix after every route change *)
   }.
+
+  Definition with_sess (st : pst) (ss : list sst) : pst := mkPst ss (ps_loc st) (ps_panic st) (ps_seen st).
 
   Definition set_in (s : sst) (i : AdjRIBIn.st) (ops : list AdjRIBIn.op) : sst :=
     mkSst (ss_up s) i (ss_out s) (ss_us s) ops (ss_hist s) (ss_lab s).
@@ -133,10 +136,11 @@ Section Pipe.
   Definition set_up (s : sst) (b : bool) : sst :=
     mkSst b (ss_in s) (ss_out s) (ss_us s) (ss_ops s) (ss_hist s) (ss_lab s).
 
-  Definition dead_in : AdjRIBIn.st := AdjRIBIn.init (AdjRIBIn.mkSA false false 0 0 0 false false 0) (fun _ _ => None).
-  Definition dead_sst (c : scfg) : sst := mkSst false dead_in (AdjRIBOut.init P (sc_exp c)) UpdateSender.init [] [] [].
+  (* a session that never came up: untouched objects *)
+  Definition dead_sst (c : scfg) : sst :=
+    mkSst false (AdjRIBIn.init (sc_sa c) (sc_pol c)) (AdjRIBOut.init P (sc_exp c)) UpdateSender.init [] [] [].
 
-  Definition init (cfgs : list scfg) : pst := mkPst (map dead_sst cfgs) LocRIBClients.init false.
+  Definition init (cfgs : list scfg) : pst := mkPst (map dead_sst cfgs) LocRIBClients.init false [].
 
   (* ---------------------------------------------------------------- update sender *)
 
@@ -218,21 +222,28 @@ Section Pipe.
   (* one operation on the Loc-RIB, its callbacks delivered in order *)
   Definition loc_op (cfgs : list scfg) (st : pst) (o : LocRIBClients.op AdjRIBOut.path) : pst :=
     match LocRIBClients.step AdjRIBOut.path AdjRIBOut.path_compare AdjRIBOut.path_equal sel (ps_loc st) o with
-    | LocRIBClients.Panic => mkPst (ps_sess st) (ps_loc st) true
+    | LocRIBClients.Panic => mkPst (ps_sess st) (ps_loc st) true (ps_seen st)
     | LocRIBClients.Ok loc' cbs =>
       let ss := fold_left (deliver cfgs) cbs (ps_sess st) in
       let (ps, only) := op_prefixes loc' o in
       mkPst (note_views loc' ps only ss) loc' (ps_panic st)
+            (ps_seen st ++ match only with
+                           | None => map (fun p => map snd (LocRIBClients.paths (LocRIBClients.route_at loc' p))) ps
+                           | Some _ => []
+                           end)
     end.
 
   (* ---------------------------------------------------------------- Adj-RIB-In of a session *)
 
-  (* a call an Adj-RIB-In delivered to its client 0, as the Loc-RIB operation it is *)
+  (* a call an Adj-RIB-In delivered to its client 0 (the Loc-RIB), as the Loc-RIB operation it is *)
   Definition loc_of_event (c : scfg) (e : AdjRIBIn.event) : option (LocRIBClients.op AdjRIBOut.path) :=
     match e with
-    | AdjRIBIn.EvAdd _ p q | AdjRIBIn.EvDump _ p q => Some (LocRIBClients.OAdd (lpfx p) (lift_of c q))
-    | AdjRIBIn.EvRemove _ p q => Some (LocRIBClients.ORemove (lpfx p) (lift_of c q))
-    | AdjRIBIn.EvReplace _ p o n => Some (LocRIBClients.OReplace (lpfx p) (lift_of c o) (lift_of c n))
+    | AdjRIBIn.EvAdd k p q | AdjRIBIn.EvDump k p q =>
+      if N.eqb k 0 then Some (LocRIBClients.OAdd (lpfx p) (lift_of c q)) else None
+    | AdjRIBIn.EvRemove k p q =>
+      if N.eqb k 0 then Some (LocRIBClients.ORemove (lpfx p) (lift_of c q)) else None
+    | AdjRIBIn.EvReplace k p o n =>
+      if N.eqb k 0 then Some (LocRIBClients.OReplace (lpfx p) (lift_of c o) (lift_of c n)) else None
     | AdjRIBIn.EvEOR _ => None                                   (* LocRIB.EndOfRIB does nothing *)
     end.
 
@@ -242,7 +253,7 @@ Section Pipe.
     | Some c, Some s =>
       let i' := AdjRIBIn.step (ss_in s) o in
       let evs := gained (AdjRIBIn.log (ss_in s)) (AdjRIBIn.log i') in
-      let st1 := mkPst (upd_nth k (fun s => set_in s i' (ss_ops s ++ [o])) (ps_sess st)) (ps_loc st) (ps_panic st) in
+      let st1 := with_sess st (upd_nth k (fun s => set_in s i' (ss_ops s ++ [o])) (ps_sess st)) in
       fold_left (fun acc e => match loc_of_event c e with
                               | Some lo => loc_op cfgs acc lo
                               | None => acc
@@ -282,10 +293,9 @@ Section Pipe.
 
   Definition us_event (cfgs : list scfg) (k : nat) (l : UpdateSender.label) (st : pst) : pst :=
     if is_up st k then
-      mkPst (with_cfg cfgs k (fun c s =>
+      with_sess st (with_cfg cfgs k (fun c s =>
                let ul := us_take (sc_us c) (ss_us s, ss_lab s) l in
                set_out s (ss_out s) (fst ul) (snd ul)) (ps_sess st))
-            (ps_loc st) (ps_panic st)
     else st.
 
   Definition step (cfgs : list scfg) (st : pst) (ev : event) : pst :=
@@ -299,7 +309,7 @@ Section Pipe.
         let pre := flat_map (cfg_ops cfgs vrf_add) others in
         let fresh := mkSst true (fold_left AdjRIBIn.step pre (AdjRIBIn.init (sc_sa c) (sc_pol c)))
                            (AdjRIBOut.init P (sc_exp c)) UpdateSender.init pre [] [] in
-        let st1 := mkPst (upd_nth k (fun _ => fresh) (ps_sess st)) (ps_loc st) (ps_panic st) in
+        let st1 := with_sess st (upd_nth k (fun _ => fresh) (ps_sess st)) in
         (* vrf.AddContributingASN / AddContributingClusterID: seen by every Adj-RIB-In, the new one included *)
         let st2 := vrf_broadcast cfgs (others ++ [k]) (vrf_add c) st1 in
         (* adjRIBIn.Register(rib) *)
@@ -318,7 +328,7 @@ Section Pipe.
         let st2 := in_op cfgs k st1 (AdjRIBIn.Unregister 0%N) in
         (* rib.Unregister(adjRIBOut) *)
         let st3 := loc_op cfgs st2 (LocRIBClients.OUnregister k) in
-        mkPst (upd_nth k (fun s => set_up s false) (ps_sess st3)) (ps_loc st3) (ps_panic st3)
+        with_sess st3 (upd_nth k (fun s => set_up s false) (ps_sess st3))
       | None => st
       end
     | EAnnounce k p q => if is_up st k then in_op cfgs k st (AdjRIBIn.Announce p q) else st
